@@ -33,7 +33,7 @@ class Picker:
 
 
 class Sim:
-    def __init__(self, kind, picker, answer=None, dev_inst_map=None, hid_kwargs=None):
+    def __init__(self, kind, picker, answer=None, dev_inst_map=None, hid_kwargs=None, register_callbacks=True):
         assert kind in DRIVERS
         self.kind = kind
         self.picker = picker
@@ -48,6 +48,7 @@ class Sim:
         self.loop = None
         self.hid_kwargs = hid_kwargs or {}
         self.dev_inst_map = dev_inst_map
+        self.register_callbacks = register_callbacks
         logging.disable(logging.CRITICAL)
 
     # -- the bus: unique answer values per transmitted frame unless the harness decides otherwise
@@ -79,8 +80,9 @@ class Sim:
                 self.dev = sim.HassebUsb(w, p, self.bus)
                 self.shim.add("/dev/dali/hid", self.dev)
                 self.driver = H.hasseb("/dev/dali/hid", **self.hid_kwargs)
-            self.driver.connection_status_callback.register(lambda d, s: self.status_events.append((w.now, s)))
-            self.driver.bus_traffic.register(lambda d, c, r, e: self.traffic.append((w.now, c, r, e)))
+            if self.register_callbacks:
+                self.driver.connection_status_callback.register(lambda d, s: self.status_events.append((w.now, s)))
+                self.driver.bus_traffic.register(lambda d, c, r, e: self.traffic.append((w.now, c, r, e)))
         else:
             S = importlib.import_module("dali.driver.serial")
             if self.kind == "luba":
